@@ -28,9 +28,37 @@ pub fn name_toks(n: &[Vec<u8>]) -> String {
     s
 }
 
+/// The same name reached along different public paths, chosen by its content: from labels, as what `without` leaves of a longer
+/// name, through owned copies and clones, and borrowed back out of a parsed message.
 pub fn make_name(labels: &[Vec<u8>]) -> Name<'static> {
     let ls: Vec<Label<'static>> = labels.iter().map(|l| Label::new_unchecked(l.clone())).collect();
-    Name::new_with_labels(&ls).into_owned()
+    let direct = Name::new_with_labels(&ls).into_owned();
+    let total: usize = labels.iter().map(|l| l.len() + 1).sum();
+    match total % 4 {
+        1 if !labels.is_empty() && total + 12 <= 255 => {
+            // x.<suffix> without <suffix> is x
+            let suffix = [Label::new_unchecked(b"zz-suffix".to_vec()), Label::new_unchecked(b"q".to_vec())];
+            let mut long = ls.clone();
+            long.extend_from_slice(&suffix);
+            let long = Name::new_with_labels(&long).into_owned();
+            let dom = Name::new_with_labels(&suffix).into_owned();
+            match long.without(&dom) {
+                Some(n) => n.into_owned(),
+                None => direct,
+            }
+        }
+        2 => direct.clone().into_owned().clone(),
+        3 => {
+            // through the wire: a question carrying the name, parsed, the name taken out and made owned
+            let mut q = Packet::new_query(0);
+            q.questions.push(simple_dns::Question::new(direct.clone(), simple_dns::QTYPE::ANY, simple_dns::QCLASS::ANY, false));
+            match q.build_bytes_vec().ok().and_then(|b| Packet::parse(&b).ok().map(|p| p.questions[0].qname.clone().into_owned())) {
+                Some(n) => n,
+                None => direct,
+            }
+        }
+        _ => direct,
+    }
 }
 
 fn fval_toks(v: &FVal) -> String {
@@ -573,7 +601,15 @@ pub fn build_rdata(code: u16, f: &[FVal]) -> Option<RData<'static>> {
 
 fn build_svcb(f: &[FVal]) -> Option<SVCB<'static>> {
     let pr = u16::try_from(gi(f, 0)?).ok()?;
-    let mut s = SVCB::new(pr, gn(f, 1)?);
+    // `priority` and `target` are public fields: every other value is first built around other ones and then assigned
+    let mut s = if pr % 2 == 1 {
+        let mut s = SVCB::new(pr ^ 1, make_name(&[b"some-other-target".to_vec(), b"example".to_vec()]));
+        s.priority = pr;
+        s.target = gn(f, 1)?;
+        s
+    } else {
+        SVCB::new(pr, gn(f, 1)?)
+    };
     for (i, (k, v)) in gl(f, 2)?.into_iter().enumerate() {
         let key = u16::try_from(k).ok()?;
         if i % 2 == 0 {
